@@ -21,6 +21,20 @@ import sys
 import time
 
 BIN, OUT, SEED, NHIST, SCRATCH = sys.argv[1], sys.argv[2], int(sys.argv[3]), int(sys.argv[4]), sys.argv[5]
+# (G) optional sixth argument: histories of the MC_Reload state graph (tools/graph.py), one per line:
+# [["Reload", [zone, ...] (configuration order), [zone, ...] (those whose file loads)], ...] with zones as label
+# tuples top-down below test. (["p", "c"] = c.p.test.). The first NHIST of them are carried out instead of random ones.
+PLANS = None
+if len(sys.argv) > 6:
+    def zname(t):
+        return ".".join(reversed(t)) + ".test."
+    PLANS = []
+    with open(sys.argv[6]) as f:
+        for line in f:
+            if line.strip():
+                PLANS.append([([zname(z) for z in st[1]], {zname(z) for z in st[2]}) for st in json.loads(line)])
+    PLANS = PLANS[:NHIST]
+    NHIST = len(PLANS)
 rnd = random.Random(SEED)
 UNIVERSE = ["p.test.", "c.p.test.", "d.c.p.test.", "q.test."]
 SENT = "sentinel.test."
@@ -100,18 +114,26 @@ def main():
                 baks[z] = {"k": "valid", "v": 100 + i}
                 use_bak[z] = False
             try:
-                for step in range(rnd.randrange(2, 7)):
+                plan = PLANS[h] if PLANS is not None else None
+                for step in range(len(plan) if plan is not None else rnd.randrange(2, 7)):
                     version += 1
 
                     def eff(z):      # the state of the file the configuration points at
                         return baks[z] if use_bak[z] else files.get(z, {"k": "missing", "v": 0})
-                    cfgzones = [z for z in UNIVERSE if rnd.random() < 0.6]
-                    rnd.shuffle(cfgzones)          # the order of [[zones]] entries matters to the as-found code
+                    if plan is not None:
+                        cfgzones = list(plan[step][0])
+                    else:
+                        cfgzones = [z for z in UNIVERSE if rnd.random() < 0.6]
+                        rnd.shuffle(cfgzones)          # the order of [[zones]] entries matters to the as-found code
                     for z in cfgzones:
-                        if rnd.random() < 0.2:
+                        if plan is None and rnd.random() < 0.2:
                             use_bak[z] = not use_bak[z]
                         cur = files.get(z)
-                        choice = rnd.choice(["valid", "valid-warn", "invalid-syntax", "invalid-nons", "invalid-mixed", "missing", "unchanged"])
+                        if plan is not None:
+                            # the model's step says which files load; how a file fails to load is drawn at random
+                            choice = rnd.choice(["valid", "valid-warn"]) if z in plan[step][1] else rnd.choice(["invalid-syntax", "invalid-nons", "invalid-mixed", "missing"])
+                        else:
+                            choice = rnd.choice(["valid", "valid-warn", "invalid-syntax", "invalid-nons", "invalid-mixed", "missing", "unchanged"])
                         if choice == "unchanged" and cur is not None:
                             continue
                         if choice == "unchanged":
